@@ -275,6 +275,43 @@ def cases_from_conn(conn, tag, have=("recession", "rise")):
     return prov, stat
 
 
+def _record_worker(args):
+    """load + classify + set-zeta-grid + rise + recession through the CLI on a Classify-lattice record (several gaps,
+    drizzle, increments exactly AT the rise threshold: the level may creep on after a rise)"""
+    from . import classify_checks as CC
+    from .workflow import Workflow
+    cid, seed_ = args
+    rng = random.Random(seed_)
+    pres = P.Presentation(dt=1800, s_real=4.0, j_real=8.0, S=4, J=4, gap=rng.choice([1, 1, 2, 3]), gap_rain=rng.choice([0, 5]))
+    rec = CC.random_record(rng, max_len=24)
+    while not pres.presentable(rec):
+        rec = CC.random_record(rng, max_len=24)
+    wd = workdir("prvrec")
+    try:
+        rain_rows, et_rows, level_rows = pres.series(rec)
+        wf = Workflow(wd, "r%d" % cid, rain_rows, et_rows, level_rows, "UTC")
+        if not wf.load().ok or not wf.run("classify", "-s", "4.0", "-j", "8.0").ok or not wf.run("set-zeta-grid", "-d", "1.0").ok:
+            wf.cleanup()
+            return cid, rec, [], []
+        have = [c for c in ("recession", "rise") if wf.run(c).ok]
+        # rain: 1 mm/h per unit on 30-minute steps = 0.5 mm per unit (SyDen 2); levels: whole millimetres
+        prov, stat = lattice_cases(wf.db, "record%d" % cid, pres.e0, 1800, 2, have) if have else ([], [])
+        wf.cleanup()
+        return cid, rec, prov, stat
+    finally:
+        rm(wd)
+
+
+def record_cases(chk, n):
+    prov, meta = [], {}
+    with mp.Pool(12) as pool:
+        for cid, rec, p, _ in pool.imap_unordered(_record_worker, [(i, seed() * 7919 + i) for i in range(n)]):
+            prov += p
+            for c in p:
+                meta[c["id"]] = {"record": rec, "cid": cid}
+    return prov, meta
+
+
 def c13(chk, tier):
     q = tier == "quick"
     chk.cov["rule"] = (
@@ -304,6 +341,9 @@ def c13(chk, tier):
             fprov += p
             for c in p:
                 meta[c["id"]] = {"beh": behs[idx], "idx": idx, "step": list(st), "base": base}
+    rprov, rmeta = record_cases(chk, 400 if q else 4000)
+    fprov += rprov
+    meta.update(rmeta)
     fails = validate(chk, "TraceProvenance", prov + fprov, "TraceProvenance on %d cases" % (len(prov) + len(fprov)))
     for c in prov + fprov:
         chk.count("evaluations", len(c["rows"]))
@@ -372,7 +412,9 @@ def replay_file(chk, rp):
     m = rp.get("workflow")
     if not m:
         raise SystemExit("replay file has no workflow description; re-run the check")
-    if "field" in m:
+    if "record" in m:
+        _, _, prov, stat = _record_worker((m["cid"], seed() * 7919 + m["cid"]))
+    elif "field" in m:
         prov, stat = field_cases(*m["field"])
     elif "step" in m:
         _, _, _, prov, err = _nd_worker((m["idx"], m["beh"], tuple(m["step"]), m["base"]))
